@@ -2,7 +2,7 @@
 # families whose checks are finished, reviewed and claimed in MANIFEST.json
 READY_FAMILIES = [
     "mergesource", "algebra", "tombstone", "tuplestore", "pushpipe", "sinkpipe",
-    "mpsc", "wake", "graphalgo", "partition", "determinism", "lattice", "simhooks", "replog", "pullpipe", "symjoin", "dfirtick", "hydroflow", "quorum", "net", "slice", "atomic",
+    "mpsc", "wake", "graphalgo", "partition", "determinism", "lattice", "simhooks", "replog", "pullpipe", "symjoin", "dfirtick", "hydroflow", "quorum", "net", "slice", "atomic", "hydroprog",
 ]
 # reasons for properties not claimed
 NOT_APPLICABLE_REASON = {}
